@@ -31,7 +31,8 @@ COMMON = dict(
     sv_names=["sv0", "sv0", "sv1", "at0"],
     w_stmt=dict(with_=4.5, read=4.0, raise_=0.4, try_=1.3, ret=0.4, orphan=0, sync=1.0),
     w_leaf=dict(call=6, item=5, err=0.3, junk=0.03, lazy=0.3, again=0.3, dbg=0.2, const=0.8),
-    lazy_modes=["ok", "ok", "raise"],
+    lazy_modes=["ok", "sync", "sync", "raise"],
+    p_ctx_sync=0.15,
     p_try_raise=0.4,
     ctxs=["ov", "ov", "ov", "attr", "actx"],
     kinds=2,
